@@ -81,16 +81,17 @@ def RowOK (reg : Registry) (p : Nat × List Entry) : Prop :=
 def rowFrame (reg : Registry) : Frame := { PE := fun _ => True, PR := RowOK reg }
 
 theorem closedT_rowFrame (env : Env) : ClosedT env (rowFrame env.reg) where
-  withD _ _ _ _ _ := trivial
+  withD _ _ _ _ _ _ := trivial
   addErrs _ _ _ := trivial
   addErr _ _ _ := trivial
   importErrors _ _ _ := trivial
-  add _ _ _ _ _ _ _ _ _ _ _ _ _ _ := trivial
+  add _ _ _ _ _ _ _ _ _ _ _ _ _ _ _ := trivial
+  rpcFlag _ _ _ _ _ _ _ _ _ _ _ := trivial
   merge _ _ _ _ _ := trivial
-  setInp _ _ _ _ _ _ _ := trivial
-  setOut _ _ _ _ _ _ _ := trivial
+  setInp _ _ _ _ _ _ := trivial
+  setOut _ _ _ _ _ _ := trivial
   typeSet _ _ _ _ := trivial
-  laSet _ _ _ _ _ _ := trivial
+  laSet _ _ _ _ _ _ _ := trivial
   base0 _ _ _ _ := trivial
   errE _ _ _ _ _ := trivial
   leafE _ _ _ _ _ := trivial
